@@ -117,6 +117,10 @@ func cmdVerify(args []string) {
 				os.Exit(2)
 			}
 			pre += pl.VCText + "\n"
+			for _, name := range pl.Autos { // development command: all auto lemmas (check proves them per run)
+				pre += pl.AutoAx[name]
+				pl.AutoAx[name] = ""
+			}
 		}
 	}
 	var gens []*Gen
